@@ -3,7 +3,7 @@ import mpdgen as g
 from connlib import COQ_FILES as CONN_FILES, run_cases, describe, print_replay
 from vlib import Failure, finish, unhexs, hexs
 
-COQ_FILES = CONN_FILES
+COQ_FILES = CONN_FILES + ["LoopModel.v", "LoopProofs.v"]
 
 PREFIX = b"OK MPD "
 
